@@ -153,9 +153,12 @@ def dead_fields() -> list[str]:
     from mypy.options import Options
 
     tok: Counter[str] = Counter()
-    for root in ("/repo/mypy", "/repo/mypyc"):
+    import mypy
+
+    top = os.path.dirname(os.path.dirname(os.path.abspath(mypy.__file__)))  # the tree under test
+    for root in (os.path.join(top, "mypy"), os.path.join(top, "mypyc")):
         for path in glob.glob(root + "/**/*.py", recursive=True):
-            rel = os.path.relpath(path, "/repo")
+            rel = os.path.relpath(path, top)
             if "/test/" in path or rel == "mypy/config_parser.py":
                 continue
             try:
